@@ -6,8 +6,10 @@ declare -A CHECKS=( [C01]="C01 C03" [C02]="C02" [C03]="C03" [C04]="C04 C09" [C05
  [C01b]="C01 C08" [C02b]="C02" [C03b]="C03 C01" [C04b]="C04 C17" [C05b]="C11" [C06b]="C06" [C07b]="C07" [C08b]="C08 C11" [C09b]="C09" [C10b]="C10"
  [C11b]="C11" [C12b]="C12" [C13b]="C13" [C14b]="C14" [C15b]="C15" [C16b]="C16 C09" [C17b]="C15 C02" [C18b]="C10" [C19b]="C19" [C20b]="C20"
  [C01c]="C01" [C02c]="C15" [C03c]="C03" [C04c]="C04 C12" [C05c]="C05 C09" [C06c]="C06" [C07c]="C07" [C08c]="C08" [C09c]="C09" [C10c]="C10"
- [C11c]="C11" [C12c]="C12" [C13c]="C13" [C14c]="C14 C19" [C15c]="C15" [C16c]="C16" [C17c]="C17" [C18c]="C18" [C19c]="C19" [C20c]="C20" )
-ALL="C01 C02 C03 C04 C05 C06 C07 C08 C09 C10 C11 C12 C13 C14 C15 C16 C17 C18 C19 C20 C01b C02b C03b C04b C05b C06b C07b C08b C09b C10b C11b C12b C13b C14b C15b C16b C17b C18b C19b C20b C01c C02c C03c C04c C05c C06c C07c C08c C09c C10c C11c C12c C13c C14c C15c C16c C17c C18c C19c C20c"
+ [C11c]="C11" [C12c]="C12" [C13c]="C13" [C14c]="C14 C19" [C15c]="C15" [C16c]="C16" [C17c]="C17" [C18c]="C18" [C19c]="C19" [C20c]="C20"
+ [C01d]="C01" [C02d]="C02" [C03d]="C03" [C04d]="C04" [C05d]="C05" [C06d]="C06" [C07d]="C15 C07" [C08d]="C08" [C09d]="C09" [C10d]="C10"
+ [C11d]="C11" [C12d]="C12" [C13d]="C13" [C14d]="C14 C10" [C15d]="C15" [C16d]="C16" [C17d]="C17" [C18d]="C18 C06" [C19d]="C19" [C20d]="C20" )
+ALL="C01 C02 C03 C04 C05 C06 C07 C08 C09 C10 C11 C12 C13 C14 C15 C16 C17 C18 C19 C20 C01b C02b C03b C04b C05b C06b C07b C08b C09b C10b C11b C12b C13b C14b C15b C16b C17b C18b C19b C20b C01c C02c C03c C04c C05c C06c C07c C08c C09c C10c C11c C12c C13c C14c C15c C16c C17c C18c C19c C20c C01d C02d C03d C04d C05d C06d C07d C08d C09d C10d C11d C12d C13d C14d C15d C16d C17d C18d C19d C20d"
 for id in ${@:-$ALL}; do
   TREE=${TREE-1} /verif/tools/mutant_run.sh $id ${TIER:-quick} ${CHECKS[$id]} 2>&1 | grep -a "^seeded=\|^error"
 done
